@@ -49,12 +49,15 @@ def gen_inlines(rng, depth=0, in_link=False, in_em=False, in_strong=False, allow
             node = ("code", gen_words(rng, 1, 2))
         elif r < 0.76 and not in_link:
             node = ("link", gen_inlines(rng, depth + 1, True, in_em, in_strong, False), rng.choice(URLS), gen_words(rng, 1, 2) if rng.random() < 0.4 else None)
+        elif r < 0.78 and not in_link:
+            u = rng.choice(["README", "http://x.y/z", "docs/index"])
+            node = ("link", [("text", u)], u, gen_words(rng, 1, 2))
         elif r < 0.82 and not in_link:
             node = ("image", gen_words(rng, 1, 2), rng.choice(URLS), gen_words(rng, 1, 2) if rng.random() < 0.3 else None)
         elif r < 0.87 and not in_link:
             node = ("auto", "http://x.y/" + rng.choice(WORDS))
         elif r < 0.91 and i > 0:
-            node = ("ihtml", rng.choice(["<b>", "</b>", "<i class=\"k\">", "<br/>", "<!-- c -->"]))
+            node = ("ihtml", rng.choice(["<b>", "</b>", "<i class=\"k\">", "<br/>", "<!-- c -->", "<nav-bar>", "</nav-bar>", "<details-menu x=\"1\">", "</summary-card>", "<li-icon/>", "<x-y>"]))
         elif r < 0.95 and not NO_ESC[0]:
             # inside emphasis / links an escaped backtick or '<' followed by a later code span / tag trips mistune's
             # precedence scan (known finding, see known_findings.json): not generated there
@@ -76,8 +79,11 @@ def gen_inlines(rng, depth=0, in_link=False, in_em=False, in_strong=False, allow
             fixed.append(("text", gen_words(rng)))
     while fixed and fixed[-1][0] in ("hard", "soft"):
         fixed.pop()
-    if fixed[0][0] in ("ihtml", "hard", "soft"):
+    if fixed[0][0] in ("hard", "soft") or (fixed[0][0] == "ihtml" and "-" not in fixed[0][1]):
+        # (a custom element such as <nav-bar> may begin a paragraph: it is inline HTML, not the start of an HTML block)
         fixed.insert(0, ("text", gen_words(rng)))
+    if fixed[0][0] == "ihtml" and len(fixed) == 1:
+        fixed.append(("text", gen_words(rng)))
     if in_em or in_strong:
         # inside emphasis the content starts and ends with a word, so delimiter runs never touch each other
         if fixed[0][0] != "text":
@@ -144,8 +150,15 @@ def gen_block(rng, depth, maxdepth, plain=False, first_in_item=False):
     ordered = rng.random() < 0.5
     tight = rng.random() < 0.5
     items = []
-    for _ in range(rng.randint(1, 3)):
+    n_items = rng.randint(1, 3)
+    for item_i in range(n_items):
         blocks = [gen_block(rng, depth + 1, maxdepth, plain, first_in_item=True)]
+        if tight and n_items > 1 and rng.random() < 0.15:
+            # an item that is one non-text block: fenced code or a quote (a heading-only or rule-only item runs into mistune
+            # deviations recorded in known_findings.json / DESIGN.md §12.5 and is exercised by stored examples only)
+            blocks = [("fence", rng.choice(["", "py"]), [gen_words(rng)])] if rng.random() < 0.5 else [("quote", [("para", gen_inlines(rng, plain=plain, allow_breaks=False))])]
+            items.append(blocks)
+            continue
         if tight:
             if rng.random() < 0.3 and depth + 1 < maxdepth:
                 # a nested tight list directly under the paragraph keeps the item tight
@@ -160,6 +173,12 @@ def gen_block(rng, depth, maxdepth, plain=False, first_in_item=False):
                 # a tight item may also end with a block that can interrupt its paragraph: fenced code or a quote
                 if rng.random() < 0.5:
                     blocks.append(("fence", rng.choice(["", "py"]), [gen_words(rng) for _ in range(rng.randint(0, 2))]))
+                elif rng.random() < 0.3:
+                    # text, a nested tight list, then an HTML block that ends the nested list without a blank line
+                    blocks.append(("list", False, None, True, [[("para", gen_inlines(rng, plain=plain, allow_breaks=False))]]))
+                    h = rng.choice(["<!-- note -->", "<?php x ?>", "<div class=\"x\">"])
+                    # (a comment / processing instruction ends on its own line; only the <div> block may run on to a second line)
+                    blocks.append(("html", [h] + ([gen_words(rng)] if h.startswith("<div") and rng.random() < 0.5 else [])))
                 elif rng.random() < 0.6:
                     blocks.append(("quote", [("para", gen_inlines(rng, plain=plain, allow_breaks=False))]))
                 else:
